@@ -169,6 +169,34 @@ func checkC15(c *Ctx) {
 			}
 		}
 	}
+	// Put whose data is a window of the same memory (moving a block inside the machine's RAM: dm.Put(dst,
+	// dm[src:src+n]...)): the bytes stored are the bytes handed over, i.e. their values at the time of the call,
+	// whichever way source and destination overlap
+	for _, l := range []int{16, 256, 65536} {
+		for _, bl := range []int{1, 2, 3, 7, 8} {
+			for src := 0; src+bl <= 16; src++ {
+				for dst := 0; dst+bl <= 16; dst++ {
+					for _, base := range []int{0, l - 16} {
+						dm := make(z80.DumbMemory, l)
+						for i := range dm {
+							dm[i] = uint8(i*7 + 3)
+						}
+						want := append([]uint8{}, dm...)
+						copy(want[base+dst:], append([]uint8{}, dm[base+src:base+src+bl]...))
+						if p := guard(func() { dm.Put(uint16(base+dst), dm[base+src:base+src+bl]...) }); p != nil {
+							fail("DumbMemory-Put-alias", int64(l)*1000+int64(bl), c15Op{"DumbMemory", l, []string{fmt.Sprintf("Put(%04X, dm[%04X:%04X]...)", base+dst, base+src, base+src+bl)}}, fmt.Sprintf("len %d: Put(%04X, dm[%04X:%04X]...) panicked: %v", l, base+dst, base+src, base+src+bl, p))
+							continue
+						}
+						n++
+						nt++
+						if i := firstDiff(dm, want); i >= 0 {
+							fail("DumbMemory-Put-alias", int64(l)*1000+int64(bl), c15Op{"DumbMemory", l, []string{fmt.Sprintf("Put(%04X, dm[%04X:%04X]...)", base+dst, base+src, base+src+bl)}}, fmt.Sprintf("len %d: after Put(%04X, dm[%04X:%04X]...) (data is a window of the same memory) byte %04X is %02X, want %02X (the value handed over)", l, base+dst, base+src, base+src+bl, i, dm[i], want[i]))
+						}
+					}
+				}
+			}
+		}
+	}
 	// MapMemory.Put: blocks anywhere incl. wrapping past 0xFFFF, long blocks
 	for _, start := range []int{0, 1, 0x7FFF, 0xFFFD, 0xFFFE, 0xFFFF} {
 		for _, bl := range []int{0, 1, 2, 3, 4, 256, 65535, 65536} {
@@ -268,7 +296,7 @@ func checkC15(c *Ctx) {
 	c.Transitions = int64(tr1 + tr2)
 	c.Traces = int64(tr1 + tr2)
 	c.Exhaustive = true
-	c.Rule = "(a) sweeps: DumbMemory with lengths {0,1,2,255,256,257,32768,65535,65536} x every one of the 65536 addresses, DumbIO with lengths {0,1,128,255,256,257} x every port, MapMemory x every address: fresh read = default, write-then-read, neighbours untouched, out-of-range read 0 / write ignored, no panic. (b) explicit-state BFS to closure over {Get, Set, Put (in-range blocks for DumbMemory, wrapping blocks for MapMemory), Clone + mutate clone / mutate original, Clear, Equal(equal clone / differing clone / value stored equal to the default / non-MapMemory), In, Out} with addresses {0,1,2,len-1,len,FFFE,FFFF} and values {00,C7,FF}; every transition calls the real method and the map model in lock-step and compares all observable addresses; canonical state key = stored contents (key set and values). Non-trivial = in-range writes and all BFS transitions (counted)."
+	c.Rule = "(a) sweeps: DumbMemory with lengths {0,1,2,255,256,257,32768,65535,65536} x every one of the 65536 addresses, DumbIO with lengths {0,1,128,255,256,257} x every port, MapMemory x every address: fresh read = default, write-then-read, neighbours untouched, out-of-range read 0 / write ignored, no panic; DumbMemory.Put with data that is a window of the same memory, every overlap of source and destination of 1..8 bytes at both ends of the slice. (b) explicit-state BFS to closure over {Get, Set, Put (in-range blocks for DumbMemory, wrapping blocks for MapMemory), Clone + mutate clone / mutate original, Clear, Equal(equal clone / differing clone / value stored equal to the default / non-MapMemory), In, Out} with addresses {0,1,2,len-1,len,FFFE,FFFF} and values {00,C7,FF}; every transition calls the real method and the map model in lock-step and compares all observable addresses; canonical state key = stored contents (key set and values). Non-trivial = in-range writes and all BFS transitions (counted)."
 	c.Bound = "complete sweeps; BFS to closure"
 	c.Set("bfs_states_mapmemory", st1)
 	c.Set("bfs_transitions_mapmemory", tr1)
